@@ -26,6 +26,8 @@ pub struct RichOpts {
     /// also feed the (possibly key-bound) presentation into a NEW holder and present again without key binding
     /// (inputs that carry a KB-JWT are outside the listed properties: observation only, DESIGN.md 0.13)
     pub rekb: bool,
+    /// randomise exp / nbf around the wall clock (C09): absent, null, string, negative, far past .. year 2100, inside the guard band
+    pub time: bool,
 }
 
 pub const ISSUER_KEYS: [(&str, &str); 3] = [("K1", "ES256"), ("KE1", "EdDSA"), ("S1", "HS256")];
@@ -43,6 +45,29 @@ pub fn run(ctx: &mut Ctx, o: &RichOpts) {
         };
         let decoy = o.decoy_on || r.gen_bool(0.5);
         let mut claims = rclaims(&mut r, &o.tree, now());
+        if o.time {
+            let t = now() as i64;
+            let off = |r: &mut StdRng| -> i64 {
+                let mag = [30, 90, 121, 600, 3600, 86_400, 31_536_000, 315_360_000, 2_300_000_000i64][r.gen_range(0..9)];
+                let jitter = r.gen_range(0..=mag / 10);
+                (mag + jitter) * if r.gen_bool(0.5) { 1 } else { -1 }
+            };
+            match r.gen_range(0..10) {
+                0 => {
+                    claims.as_object_mut().unwrap().remove("exp");
+                }
+                1 => claims["exp"] = serde_json::Value::Null,
+                2 => claims["exp"] = serde_json::json!("tomorrow"),
+                3 => claims["exp"] = serde_json::json!(-5),
+                _ => claims["exp"] = serde_json::json!(t + off(&mut r)),
+            }
+            match r.gen_range(0..4) {
+                0 => {
+                    claims.as_object_mut().unwrap().remove("nbf");
+                }
+                _ => claims["nbf"] = serde_json::json!(t + off(&mut r)),
+            }
+        }
         if o.plant > 0.0 && r.gen_bool(o.plant) {
             plant_reserved(&mut claims, &mut r);
         }
